@@ -347,6 +347,30 @@ pub fn run_case(case: &Case) -> Outcome {
     o.pass()
 }
 
+/// exactly collinear ordinates on an evenly spaced dyadic grid (all second differences vanish bit for bit) with end
+/// slopes that agree with the line at neither, one or both ends - for the clamped spline the end slopes alone then
+/// decide the shape
+fn collinear_case() -> BoxedStrategy<Case> {
+    (
+        (any::<bool>(), any::<bool>(), -24i32..=8, prop_oneof![Just(1.0), Just(0.5), Just(0.125)], 2usize..=12),
+        ((-12i32..=12, -12i32..=12), (-12i32..=12, -12i32..=12), 0u8..4, (gen::fl(-3.0, 3.0), gen::fl(-3.0, 3.0)), (gen::fl(-3.0, 3.0), gen::fl(-3.0, 3.0))),
+    )
+        .prop_map(|((complex, clamped, k0, h, n), ((ar, br), (ai, bi), mode, s0, s1))| {
+            let q = |k: i32| k as f64 * 0.25;
+            let x0 = q(k0);
+            let ys: Vec<(f64, f64)> = (0..=n).map(|k| (q(ar) * (x0 + h * k as f64) + q(br), q(ai) * (x0 + h * k as f64) + q(bi))).collect();
+            let line = (q(ar), q(ai));
+            let slopes = match mode {
+                0 => (line, line),
+                1 => (s0, line),
+                2 => (line, s1),
+                _ => (s0, s1),
+            };
+            Case { complex, clamped, x0, hs: vec![h; n], ys, slopes, sampled: false, tol: 1e-10, yscale_exp: 0.0, coef_exp: [0.0; 4], invalid: 0 }
+        })
+        .boxed()
+}
+
 fn cexp() -> BoxedStrategy<f64> {
     prop_oneof![2 => Just(0.0), 1 => gen::fl(-8.0, 0.0)].boxed()
 }
@@ -354,7 +378,7 @@ fn cexp() -> BoxedStrategy<f64> {
 fn strategy(t: Tier) -> BoxedStrategy<Case> {
     let maxk = t.pick(40usize, 40);
     let val = || (gen::fl(-3.0, 3.0), gen::fl(-3.0, 3.0));
-    (
+    let main = (
         any::<bool>(),
         any::<bool>(),
         gen::fl(-10.0, 5.0),
@@ -381,8 +405,8 @@ fn strategy(t: Tier) -> BoxedStrategy<Case> {
                 }
             }
             Case { complex, clamped, x0, hs, ys, slopes, sampled, tol, yscale_exp, coef_exp, invalid }
-        })
-        .boxed()
+        });
+    prop_oneof![15 => main, 1 => collinear_case()].boxed()
 }
 
 pub fn run(opts: &Opts) -> i32 {
@@ -397,7 +421,7 @@ pub fn run(opts: &Opts) -> i32 {
     }
     spec.cases = opts.tier.pick(150_000, 4_000_000);
     spec.essential = vec![("free", 0.3), ("clamped", 0.3), ("complex", 0.3), ("sampled", 0.15), ("invalid", 0.05), ("y-scaled", 0.3), ("loose-polynomial-tolerance", 0.3), ("tolerance-above-knot-spacing", 0.03)];
-    spec.rule = "generated: 2-40 knots, spacings 10^[-1.7,0] (ratio <= 50; one case in eight evenly spaced with h = 1, 1/2, 1/8 or arbitrary) inside [-10,10], real and complex ordinates in [-3,3] times a common factor 1 or 10^[-9,3] (or samples of a random cubic for clamped / line for free whose coefficients carry individual factors 10^[-8,0]: gently curved data), random end slopes, polynomial zero-tolerance argument 10^[-14,0] (a fifth of the cases above 1e-4, i.e. also larger than the smallest knot spacing) (the oracle gives it no allowance: it must not move the spline); invalid: < 2 points, mismatched lengths, a decreasing knot pair, evaluation outside the range. Oracle: independent spline from a dense LU solve of the second-derivative system; on every interval values and slopes at both end knots (from inside) and 8 interior points within 64 eps (K(x) + g h^2), K the magnitude of the terms of the piece expanded in powers of x, g the decayed rounding scale of the second derivatives,, interpolation, continuity of the recovered second derivative across knots, zero end curvature (free) / prescribed end slopes (clamped), cubic/line reproduction; Err outside the range (evaluate and evaluate_derivative probed separately, both sides) and for the invalid class. Non-trivial = >= 4 knots with non-uniform spacing. Distinct = distinct case JSON.".into();
+    spec.rule = "generated: 2-40 knots, spacings 10^[-1.7,0] (ratio <= 50; one case in eight evenly spaced with h = 1, 1/2, 1/8 or arbitrary) inside [-10,10], real and complex ordinates in [-3,3] times a common factor 1 or 10^[-9,3] (or samples of a random cubic for clamped / line for free whose coefficients carry individual factors 10^[-8,0]: gently curved data), random end slopes; one case in sixteen has exactly collinear ordinates on an evenly spaced dyadic grid with end slopes that agree with the line at neither, one or both ends; polynomial zero-tolerance argument 10^[-14,0] (a fifth of the cases above 1e-4, i.e. also larger than the smallest knot spacing) (the oracle gives it no allowance: it must not move the spline); invalid: < 2 points, mismatched lengths, a decreasing knot pair, evaluation outside the range. Oracle: independent spline from a dense LU solve of the second-derivative system; on every interval values and slopes at both end knots (from inside) and 8 interior points within 64 eps (K(x) + g h^2), K the magnitude of the terms of the piece expanded in powers of x, g the decayed rounding scale of the second derivatives,, interpolation, continuity of the recovered second derivative across knots, zero end curvature (free) / prescribed end slopes (clamped), cubic/line reproduction; Err outside the range (evaluate and evaluate_derivative probed separately, both sides) and for the invalid class. Non-trivial = >= 4 knots with non-uniform spacing. Distinct = distinct case JSON.".into();
     spec.max_shrink_iters = 1500;
     run_spec(spec, opts)
 }
